@@ -1656,6 +1656,78 @@ class Model:
                                 continue
                             if column_is_strings(tbl, pos):
                                 return True
+        # names taken from the declared fields of a dataclass: `f.name` for f in dataclasses.fields(C) (possibly through zip / a
+        # filter / module-level comprehensions built from it) — a finite set, and all of them plain fields of C
+        if self._from_dataclass_fields(m, top, name, 0):
+            return True
+        return False
+
+    def _from_dataclass_fields(self, m, top, e, depth: int) -> bool:
+        if depth > 5:
+            return False
+
+        def is_fields_call(x) -> bool:
+            if isinstance(x, ast.Call) and len(x.args) == 1 and not x.keywords and isinstance(x.args[0], (ast.Name, ast.Call, ast.Attribute)):
+                f = x.func
+                if isinstance(f, ast.Name) and f.id == "fields":
+                    r = self.resolve(m.name, "fields")
+                    return bool(r and r[0] == "external" and r[1].startswith("dataclasses"))
+                if isinstance(f, ast.Attribute) and f.attr == "fields" and isinstance(f.value, ast.Name) and f.value.id == "dataclasses":
+                    return True
+            return False
+
+        def binder_of(var: str):
+            """(target, iterable) of the loop / comprehension that binds ``var`` (in the function, or at module level)"""
+            for scope in (top, m.tree):
+                for n in ast.walk(scope):
+                    if isinstance(n, (ast.For, ast.comprehension)) and any(isinstance(x, ast.Name) and x.id == var for x in ast.walk(n.target)):
+                        return n.target, n.iter
+            return None
+
+        def module_value(nm: str):
+            c = [st.value for st in m.tree.body if isinstance(st, ast.Assign) and len(st.targets) == 1 and isinstance(st.targets[0], ast.Name) and
+                 st.targets[0].id == nm] + \
+                [st.value for st in m.tree.body if isinstance(st, ast.AnnAssign) and isinstance(st.target, ast.Name) and st.target.id == nm and st.value is not None]
+            return c[0] if len(c) == 1 else None
+
+        def elements_from_fields(it, tgt, var) -> bool:
+            """does ``var`` (bound by tgt over it) range over Field objects / names of fields?"""
+            if is_fields_call(it):
+                return isinstance(tgt, ast.Name) and tgt.id == var
+            if isinstance(it, ast.Call) and isinstance(it.func, ast.Name) and it.func.id == "zip" and isinstance(tgt, ast.Tuple) and len(tgt.elts) == len(it.args):
+                for t_, a_ in zip(tgt.elts, it.args):
+                    if isinstance(t_, ast.Name) and t_.id == var:
+                        return elements_from_fields(a_, t_, var)
+                return False
+            if isinstance(it, ast.Call) and isinstance(it.func, ast.Name) and it.func.id in ("list", "tuple", "iter", "reversed", "sorted") and it.args:
+                return elements_from_fields(it.args[0], tgt, var)
+            if isinstance(it, ast.Name):
+                v = module_value(it.id)
+                # a module-level list of names built from the fields: [f.name for f in fields(C) if ..]
+                if isinstance(v, (ast.ListComp, ast.GeneratorExp, ast.SetComp)) and isinstance(tgt, ast.Name) and tgt.id == var:
+                    return self._from_dataclass_fields(m, v, v.elt, depth + 1) if False else _names_comp(v)
+            return False
+
+        def _names_comp(comp) -> bool:
+            g = comp.generators[0]
+            return len(comp.generators) == 1 and isinstance(comp.elt, ast.Attribute) and comp.elt.attr == "name" and isinstance(comp.elt.value, ast.Name) and \
+                isinstance(g.target, ast.Name) and g.target.id == comp.elt.value.id and is_fields_call(g.iter)
+        # f.name with f ranging over fields(C)
+        if isinstance(e, ast.Attribute) and e.attr == "name" and isinstance(e.value, ast.Name):
+            b = binder_of(e.value.id)
+            return b is not None and elements_from_fields(b[1], b[0], e.value.id)
+        # a name ranging over a module-level list of field names
+        if isinstance(e, ast.Name):
+            b = binder_of(e.id)
+            if b is not None and elements_from_fields(b[1], b[0], e.id):
+                return True
+            return False
+        # TABLE[k] with TABLE a module-level dict comprehension whose values are field names
+        if isinstance(e, ast.Subscript) and isinstance(e.value, ast.Name):
+            v = module_value(e.value.id)
+            if isinstance(v, ast.DictComp) and len(v.generators) == 1 and isinstance(v.value, ast.Name):
+                g = v.generators[0]
+                return elements_from_fields(g.iter, g.target, v.value.id)
         return False
 
     # ------------------------------------------------------------- utilities
